@@ -1050,12 +1050,210 @@ def _expand_local(node, single):
     return n
 
 
+def _call_sites(prog, g):
+    """([(caller, call node)], escapes) for repository function g: every call of g in the repository; escapes =
+    g is also named where it is not called (its address is taken, it is bound to a std::function, ...), so its
+    callers cannot be listed."""
+    from .. import callgraph
+    cache = prog.__dict__.setdefault('_c03_call_sites', {})
+    if g.key not in cache:
+        cg = callgraph.get(prog)
+        sites, escapes, seen = [], False, set()
+        for h in prog.functions.values():
+            if h.body is None or not prog.in_repo(h.file):
+                continue
+            # mentions of a function of that name and type (overloads of the name with another type are not g)
+            named = [x for x in walk(h.node)
+                     if (x.get('kind') == 'DeclRefExpr' and (x.get('referencedDecl') or {}).get('name') == g.name
+                         and (x.get('referencedDecl') or {}).get('kind') in ('FunctionDecl', 'CXXMethodDecl')
+                         and (x.get('referencedDecl') or {}).get('type') == g.type)
+                     or (x.get('kind') == 'MemberExpr' and g.cls is not None and x.get('name') == g.name)]
+            if not named:
+                continue
+            mine = 0
+            for e in cg.edges(h):
+                if g in e.targets and e.node.get('kind') in ('CallExpr', 'CXXMemberCallExpr'):
+                    mine += 1
+                    if locstr(e.node) not in seen:
+                        seen.add(locstr(e.node))
+                        sites.append((h, e.node))
+            if len(named) > mine:
+                escapes = True      # (for a member function: any member of that name counts - conservative)
+        cache[g.key] = (sites, escapes)
+    return cache[g.key]
+
+
+def _root_param(g, obj):
+    """The parameter of g that the object expression `obj` (p, p.m, p.m.n, p->m) is rooted at, if g never
+    assigns it; None otherwise."""
+    e = strip(obj, explicit=True)
+    while e.get('kind') == 'MemberExpr' and children(e):
+        e = strip(children(e)[0], explicit=True)
+    if e.get('kind') != 'DeclRefExpr' or (e.get('referencedDecl') or {}).get('kind') != 'ParmVarDecl':
+        return None
+    pid = e['referencedDecl'].get('id')
+    idx = [i for i, p_ in enumerate(g.params) if p_.get('id') == pid]
+    if not idx:
+        return None
+    for x in walk(g.body):
+        k = x.get('kind')
+        tgt = None
+        if k in ('BinaryOperator', 'CompoundAssignOperator') and (x.get('opcode') or '').endswith('=') \
+                and x.get('opcode') not in ('==', '!=', '<=', '>='):
+            tgt = children(x)[0]
+        elif k == 'CXXOperatorCallExpr' and len(children(x)) > 1 and \
+                ((strip(children(x)[0]).get('referencedDecl') or {}).get('name') or '').endswith('='):
+            tgt = children(x)[1]
+        if tgt is not None:
+            t = strip(tgt, explicit=True)
+            while t.get('kind') == 'MemberExpr' and children(t):
+                t = strip(children(t)[0], explicit=True)
+            if t.get('kind') == 'DeclRefExpr' and (t.get('referencedDecl') or {}).get('id') == pid:
+                return None
+    return idx[0]
+
+
+def _is_place(a):
+    """a names an object (variable, member of one, element reached by a reference): what a guard written before
+    the call tested is the very value the call passes."""
+    a = strip(a, explicit=True)
+    while a.get('kind') == 'MemberExpr' and children(a):
+        a = strip(children(a)[0], explicit=True)
+    return a.get('kind') in ('DeclRefExpr', 'CXXThisExpr')
+
+
+def _unchanged_between(h, guard, call, arg):
+    """No statement of h between `guard` and `call` (siblings of the guard, up to the one holding the call) assigns
+    the object `arg` names or calls a non-const member on it."""
+    root = strip(arg, explicit=True)
+    names = []
+    while root.get('kind') == 'MemberExpr' and children(root):
+        names.append(root.get('name'))
+        root = strip(children(root)[0], explicit=True)
+    rid = (root.get('referencedDecl') or {}).get('id') if root.get('kind') == 'DeclRefExpr' else None
+
+    def same_root(e):
+        e = strip(e, explicit=True)
+        while e.get('kind') == 'MemberExpr' and children(e):
+            e = strip(children(e)[0], explicit=True)
+        if rid is None:
+            return e.get('kind') == 'CXXThisExpr'
+        return e.get('kind') == 'DeclRefExpr' and (e.get('referencedDecl') or {}).get('id') == rid
+
+    def holds(n, x):
+        return any(y is x for y in walk(n))
+    for blk in walk(h.body):
+        if blk.get('kind') != 'CompoundStmt':
+            continue
+        st = children(blk)
+        gi = [i for i, x in enumerate(st) if x is guard]
+        if not gi:
+            continue
+        for x in st[gi[0] + 1:]:
+            last = holds(x, call)
+            for y in walk(x):
+                if y is call:
+                    break
+                k = y.get('kind')
+                tgt = None
+                if k in ('BinaryOperator', 'CompoundAssignOperator') and (y.get('opcode') or '').endswith('=') \
+                        and y.get('opcode') not in ('==', '!=', '<=', '>='):
+                    tgt = children(y)[0]
+                elif k == 'CXXOperatorCallExpr' and len(children(y)) > 1 and \
+                        ((strip(children(y)[0]).get('referencedDecl') or {}).get('name') or '').endswith('=') and \
+                        (strip(children(y)[0]).get('referencedDecl') or {}).get('name') not in ('operator==', 'operator!=', 'operator<=', 'operator>='):
+                    tgt = children(y)[1]
+                elif k == 'CXXMemberCallExpr':
+                    callee = strip(children(y)[0])
+                    if children(callee) and 'const' not in (callee.get('type') or '').split(')')[-1] and \
+                            callee.get('name') not in ('length', 'size', 'empty', 'data', 'c_str', 'begin', 'end',
+                                                       'cbegin', 'cend', 'value', 'has_value'):
+                        tgt = children(callee)[0]
+                if tgt is not None and same_root(tgt):
+                    return False
+            if last:
+                return True
+        return True
+    return True
+
+
+def _caller_guarantees(prog, ex, g, inner, depth=0):
+    """The length narrowed in helper g is taken from (a member of) a parameter of g and g itself does not test it:
+    the test is then a precondition g relies on.  It holds if g is internal to the library (defined outside the
+    public headers, never passed around by address), and at EVERY call of g a guard that throws bounds the
+    length of the very object passed - in the caller, before the call, with the object left alone in between -
+    or the caller in turn receives the object as a parameter and all of its callers guarantee it.
+    -> (ok sites [(caller, call)], failing sites [(caller, call, reason)]); (None, reason) if not applicable."""
+    callee = strip(children(inner)[0])
+    obj = children(callee)[0] if children(callee) else None
+    if obj is None:
+        return None, 'the length is not taken from an object'
+    pi = _root_param(g, obj)
+    if pi is None:
+        return None, 'the length is not taken from a parameter that the helper leaves unassigned'
+    if '/include/' in (g.file or ''):
+        return None, 'the helper is declared in a public header: code outside the library can call it'
+    sites, escapes = _call_sites(prog, g)
+    if escapes:
+        return None, 'the address of the helper is taken: its callers cannot be listed'
+    if not sites:
+        return None, 'no call of the helper was found'
+    ok, bad = [], []
+    for h, call in sites:
+        args = [a for a in children(call)[1:]]
+        if call.get('kind') not in ('CallExpr', 'CXXMemberCallExpr') or pi >= len(args) or \
+                args[pi].get('kind') == 'CXXDefaultArgExpr':
+            bad.append((h, call, 'the argument for the parameter could not be identified'))
+            continue
+        arg = args[pi]
+        if not _is_place(arg):
+            bad.append((h, call, 'the argument is a computed value, not an object a guard before the call could have tested'))
+            continue
+        single = program.single_assignment_locals(h.node)
+        target = ex.resolve(inner, {g.params[pi]['id']: ex.resolve(arg, {}, h.tu)}, g.tu)
+        guards = [gd_ for gd_ in _guards_before(h, call, prog) if _cmp_bound(gd_, ex, h.tu, target, single)]
+        guards = [gd_ for gd_ in guards if _unchanged_between(h, gd_, call, arg)]
+        if guards:
+            ok.append((h, call, target))
+            continue
+        # the caller passes on (a member of) its own parameter: its callers have to guarantee it
+        hp = _root_param(h, arg) if h.body is not None else None
+        if hp is not None and depth < 3 and h is not g:
+            inner2 = {'kind': 'CXXMemberCallExpr', 'type': inner.get('type'),
+                      'inner': [{'kind': 'MemberExpr', 'name': callee.get('name'), 'inner': [arg]}]}
+            sub_ok, sub_bad = _caller_guarantees(prog, ex, h, inner2, depth + 1)
+            if sub_ok is not None and not sub_bad:
+                ok.append((h, call, target))
+                continue
+            if sub_ok is not None:
+                bad.extend(sub_bad)
+                continue
+        bad.append((h, call, 'no guard that throws bounds %s before the call' % target))
+    return ok, bad
+
+
+def _all_chains(prog, ex):
+    """Keys of the encoders of all codecs and of the helpers they hand their cursor to."""
+    c = prog.__dict__.get('_c03_all_chains')
+    if c is None:
+        c = set()
+        for _, e, _d in codec.PAIRS:
+            try:
+                c |= set(_emit_helpers(ex, prog.func(e)))
+            except (KeyError, AnalysisBroken):
+                pass
+        prog.__dict__['_c03_all_chains'] = c
+    return c
+
+
 def _narrowing(prog, ex, chk, S2, name, f):
     """Every conversion of a container length (x.length() / x.size()) to a type of at most eight
     bits - explicit cast or implicit narrowing, wherever it stands (argument of encode_uint8,
     initialiser of a local, in the encoder or in a helper the encoder hands its cursor to; the length
     possibly held in a named local) - is an obligation: a dominating guard on the UN-narrowed length
-    (`if (x.length() > 255) throw`) must bound it.  A test on the narrowed value proves nothing."""
+    (`if (x.length() > 255) throw`) must bound it.  A test on the narrowed value proves nothing.
+    In a helper that narrows the length of an object it is handed, the guard may instead stand in the
+    callers: in every one of them, before the call, on the object passed (see _caller_guarantees)."""
     def small(t):
         t = (t or '').replace('const ', '').strip()
         return t in ('uint8_t', 'unsigned char', 'char', 'signed char', 'int8_t', 'std::byte', 'uint_least8_t')
@@ -1084,6 +1282,29 @@ def _narrowing(prog, ex, chk, S2, name, f):
             guards = _guards_before(g, n, prog)
             if any(_cmp_bound(gd_, ex, g.tu, target, single) for gd_ in guards):
                 chk.ok(S2, '%s: %s narrowed to one byte under a range guard on the full length' % (name, target), locstr(n))
+                continue
+            sites_ok, sites_bad = _caller_guarantees(prog, ex, g, inner) if g is not f else (None, None)
+            if sites_ok is not None:
+                # the guard is a precondition of the helper: every call must establish it
+                chain = _emit_helpers(ex, f)
+                for h, call, tgt in sites_ok:
+                    if h.key in chain:
+                        chk.ok(S2, '%s: %s narrowed to one byte in %s, every caller of which bounds the full length before '
+                                   'the call (here %s at %s)' % (name, target, g.name, tgt, locstr(call)), locstr(n))
+                for h, call, why in sites_bad:
+                    if h.key not in chain:
+                        # a call outside this codec: reported with the codec it belongs to, or (if it belongs to
+                        # none) once
+                        if h.key in _all_chains(prog, ex) or locstr(call) in chk.__dict__.setdefault('_s2_orphans', set()):
+                            continue
+                        chk._s2_orphans.add(locstr(call))
+                    chk.violation(S2, '%s|%s' % (name, re.sub(r'local:', '', target)), locstr(call),
+                                  '%s narrows %s to one byte and does not itself check the full length against 255; it '
+                                  'relies on its callers, and the call at %s in %s does not establish that: %s.  A longer '
+                                  'label is written with a truncated length byte followed by all of its bytes, and decodes '
+                                  'to something else' % (g.name, target, locstr(call), _short(h.qualname or h.name), why))
+                if not sites_bad and not any(h.key in chain for h, _, _ in sites_ok):
+                    chk.unknown(S2, name, 'no call of %s on the way from %s was found' % (g.name, f.name))
             else:
                 chk.violation(S2, '%s|%s' % (name, re.sub(r'local:', '', target)), locstr(n),
                               '%s::%s narrows %s to one byte with no dominating check of the full length against '
